@@ -66,6 +66,8 @@ KEY_PACKED = "C08:packed-key-concrete-preimage-decoded-as-scalar:sevm-bytes1-key
 W = 1 << 256
 SCRATCH = 0x00
 OUT = 0x200
+CDBUF = 0x800
+ACCOUNTS = {"A": 0x1000, "B": 0x2000, "C": 0x3000}     # A = evmdiff.MAIN
 
 
 # ======================================================================================================================
@@ -222,7 +224,7 @@ class Prog:
     meta: dict = field(default_factory=dict)
 
     def nloads(self):
-        return sum(1 for s in self.stmts if s[0] in ("sload", "tload"))
+        return sum(1 for s in self.stmts if s[0] in ("sload", "tload")) + sum(s[2] for s in self.stmts if s[0] == "call")
 
     def code(self):
         from vlib import asm
@@ -235,6 +237,12 @@ class Prog:
             elif op in ("sload", "tload"):
                 items += emit_loc(s[1]) + ["SLOAD" if op == "sload" else "TLOAD", ("push", OUT + 32 * k), "MSTORE"]
                 k += 1
+            elif op == "call":
+                # CALL <account s[1]> forwarding the whole calldata; its s[2] returned words go to the output
+                items += ["CALLDATASIZE", ("push", 0), ("push", CDBUF), "CALLDATACOPY",
+                          ("push", 32 * s[2]), ("push", OUT + 32 * k), "CALLDATASIZE", ("push", CDBUF), ("push", 0), ("push", ACCOUNTS[s[1]]),
+                          ("push", 0xFFFFFF), "CALL", "POP"]
+                k += s[2]
             elif op == "branch_prefix":
                 # if (u != 0) goto B;  if (x == c) goto A;  stop;  A: stop;  B: <the rest>
                 # halmos explores the fall-through side first: the side B is a pending sibling while the other side
@@ -891,7 +899,12 @@ def model_requests(D, sr, p, pe, layout, variant):
     if not trace:
         return [], [], []
     try:
-        reg = ";".join(f"{h:x} {ser(e)}" for h, e in registry_entries(ex)) or "-"
+        regs = [f"{h:x} {ser(e)}" for h, e in registry_entries(ex)]
+        import z3 as _z3
+        for t, v in ex.path.concretization.substitution.items():     # what int_of knows on this path
+            if _z3.is_bv(t) and _z3.is_bv_value(v) and not str(t.decl().name()).startswith("f_sha3_"):
+                regs.append(f"c:{v.as_long():x} {ser(t)}")
+        reg = ";".join(regs) or "-"
         terms = [ser(e.slot) for e in trace]
         expected = [real_decode(D, sr.sevm, ex, e.slot, pe, layout) for e in trace]
         hist = {False: [], True: []}
@@ -1111,6 +1124,13 @@ def write_corpus():
                                                           "code": prog.code().hex()}, indent=1))
 
 
+def write_corpus_multi():
+    d = VERIF / "corpus" / ID
+    d.mkdir(parents=True, exist_ok=True)
+    for mp in multi_directed():
+        (d / f"{mp.name}.json").write_text(json.dumps(dict(mp.describe(), expect=None), indent=1))
+
+
 def directed_programs(ctx, variant, have=()):
     """(prog, expected_failure_key or None)"""
     pre = precomputed_tables()
@@ -1119,7 +1139,7 @@ def directed_programs(ctx, variant, have=()):
     nodes = [("arr", ("lit", v)) for h, v in pre["keccak256_256"].items()]
     nodes += [("map", ("c", a), ("lit", b), 32) for h, (a, b) in pre["keccak256_512"].items()]
     nodes.sort(key=lambda n: -(slot_of(n, ()) & 0xFFFF))     # closest to the upper bucket boundary first
-    n = ctx.scale(14, len(nodes))
+    n = ctx.scale(10, len(nodes))
     chosen = nodes[: n // 2] + (ctx.rng.sample(nodes[n // 2:], n - n // 2) if n < len(nodes) else nodes[n // 2:])
     # small constant offsets from table constants (struct members / first array elements), several per program
     for node in (ctx.rng.sample(nodes, ctx.scale(5, 40))):
@@ -1130,7 +1150,7 @@ def directed_programs(ctx, variant, have=()):
         if ds:
             out.append((multi_delta_case(node, ds, f"deltas-{tag}-" + "-".join(map(str, ds))), None))
     # table constants minus small offsets (inside the bucket of the hash and across its lower boundary)
-    for node in ctx.rng.sample(nodes, ctx.scale(6, 120)):
+    for node in ctx.rng.sample(nodes, ctx.scale(4, 120)):
         lo = slot_of(node, ()) & 0xFFFF
         ks = sorted(set(ctx.rng.sample([1, 2, 3, 4, 7, 8, 16, 31, 32, 255, 256, max(lo, 1), lo + 1], 4)))
         out.append((neg_const_case(node, ks, f"below-{node_tag(node)}-" + "-".join(map(str, ks))), None))
@@ -1235,6 +1255,225 @@ def transient_two_tx(ctx, layout, variant, loc_store, loc_load, symbolic_key):
             verdicts.append(("ok" if (w1 == exp1 and w2 == exp2) else "mismatch", {"a0": hex(v), "tx1": w1, "tx2": w2,
                                                                                  "expected_tx1": exp1, "expected_tx2": exp2}))
     return code, verdicts
+
+
+# ======================================================================================================================
+# several accounts, transactions started through SEVM.run_message
+# ======================================================================================================================
+@dataclass
+class Multi:
+    """accounts A (entry), B, C deployed before the transaction; A calls B (B may call C) forwarding the calldata; the output
+    of A is its own loaded words plus the words returned by the callee.  The same transaction is run twice in sequence."""
+    progs: dict
+    nargs: int
+    name: str = ""
+
+    def contracts(self):
+        return {ACCOUNTS[n]: p.code() for n, p in self.progs.items()}
+
+    def kinds(self):
+        out = {"multi-account"}
+        for p in self.progs.values():
+            out |= p.kinds()
+        return out
+
+    def describe(self):
+        return {"name": self.name, "nargs": self.nargs, "multi": {n: json.loads(json.dumps(p.stmts)) for n, p in self.progs.items()},
+                "code": {n: p.code().hex() for n, p in self.progs.items()}}
+
+
+def multi_directed():
+    m = lambda k: ("map", k, ("lit", 1), 32)
+    el = lambda i: ("off", ("arr", ("lit", 2)), i, False)
+    out = []
+    out.append(Multi({"A": Prog([("tload", ("lit", 0)), ("sload", ("lit", 0)), ("tstore", ("lit", 0), ("c", 0x2A)), ("sstore", ("lit", 0), ("c", 0x2B)),
+                                 ("call", "B", 2), ("tload", ("lit", 0)), ("sload", ("lit", 0))], 1),
+                      "B": Prog([("tload", ("lit", 0)), ("sload", ("lit", 0))], 1)}, 1, name="multi-account-scalar-a-stores-b-loads"))
+    out.append(Multi({"A": Prog([("tload", m(("a", 0))), ("sload", m(("a", 0))), ("tstore", m(("a", 0)), ("c", 0x31)), ("tstore", el(("a", 1)), ("c", 0x32)),
+                                 ("sstore", m(("a", 0)), ("c", 0x33)), ("call", "B", 5), ("tload", m(("c", 1))), ("tload", el(("c", 2)))], 2),
+                      "B": Prog([("tload", m(("c", 1))), ("tload", el(("c", 2))), ("tload", m(("a", 0))), ("sload", m(("a", 0))),
+                                 ("tstore", m(("a", 0)), ("c", 0x41)), ("call", "C", 1)], 2),
+                      "C": Prog([("tload", m(("a", 0)))], 2)}, 2, name="multi-account-mapping-array-a-b-c"))
+    out.append(Multi({"A": Prog([("call", "B", 2), ("tload", m(("a", 0))), ("sload", m(("a", 0))), ("tload", ("lit", 3)), ("tstore", ("lit", 3), ("c", 9))], 1),
+                      "B": Prog([("tload", m(("a", 0))), ("tstore", m(("a", 0)), ("c", 0x51)), ("sstore", m(("a", 0)), ("c", 0x52)),
+                                 ("tstore", ("lit", 3), ("c", 7)), ("tload", m(("a", 0)))], 1)}, 1, name="multi-account-callee-stores-caller-loads"))
+    return out
+
+
+def gen_multi(rng, pool):
+    nargs = rng.choice([1, 2])
+    g = LocGen(rng, nargs, pool)
+    locs = [g.location() for _ in range(rng.randrange(1, 4))] + [("lit", rng.choice([0, 1, 3]))]
+    names = ["A", "B"] + (["C"] if rng.random() < 0.35 else [])
+    progs = {}
+    for i in reversed(range(len(names))):
+        n = names[i]
+        body = []
+        for loc in rng.sample(locs, rng.randrange(1, len(locs) + 1)):      # prologue reads: fresh transient, carried-over storage
+            body.append((rng.choice(["tload", "tload", "sload"]), g.render(strip_const(loc))))
+        stores = []
+        for j, loc in enumerate(rng.sample(locs, rng.randrange(0 if n != "A" else 1, len(locs) + 1))):
+            v = ("c", 0x10 * (i + 1) + j + 1) if rng.random() < 0.7 else ("a", rng.randrange(nargs))
+            stores.append((rng.choice(["tstore", "tstore", "sstore"]), g.render(strip_const(loc)), v))
+        reads = [(rng.choice(["tload", "tload", "sload"]), g.render(strip_const(loc))) for loc in rng.sample(locs, rng.randrange(1, len(locs) + 1))]
+        call = [("call", names[i + 1], progs[names[i + 1]].nloads())] if i + 1 < len(names) else []
+        if rng.random() < 0.3:      # reverse order: the callee runs before this account's stores
+            body += call + stores + reads
+        else:
+            cut = rng.randrange(len(stores) + 1)
+            body += stores[:cut] + call + stores[cut:] + reads
+        progs[n] = Prog(body, nargs)
+    return Multi({n: progs[n] for n in names}, nargs)
+
+
+def run_multi(ctx, D, mp, layout):
+    """tx1 and, from each of its successful end states, tx2 (same message) through SEVM.run_message.
+    Returns (paths1, [(e1 index, paths2)]) as D.PathRes lists."""
+    from vlib import sevmdrv
+    from z3 import BitVec
+    from halmos.__main__ import mk_solver
+    from halmos.bitvec import HalmosBitVec as BV
+    from halmos.bytevec import ByteVec
+    from halmos.exceptions import EvmException, HalmosException, Revert
+    from halmos.sevm import Message, Path, con_addr
+    from halmos.utils import EVM
+
+    sevm, args = sevmdrv.mk_sevm(storage_layout=layout)
+
+    def calldata():
+        cd = ByteVec()
+        cd.append(b"\x12\x34\x56\x78")
+        for i in range(mp.nargs):
+            cd.append(BV(BitVec(f"a{i}", 256), size=256))
+        return cd
+
+    def kind_of(e):
+        out = e.context.output
+        err = out.error
+        return ("success" if err is None and out.data is not None else "stuck:NoOutput" if err is None
+                else "revert" if isinstance(err, Revert) else "stuck:" + type(err).__name__ if isinstance(err, HalmosException)
+                else D.ERR_TO_HALT.get(type(err).__name__, "evm:" + type(err).__name__) if isinstance(err, EvmException)
+                else "other:" + type(err).__name__)
+
+    def message():
+        return Message(target=con_addr(ACCOUNTS["A"]), caller=sevmdrv.CALLER, origin=sevmdrv.ORIGIN, value=sevmdrv.CALLVALUE, data=calldata(),
+                       call_scheme=EVM.CALL)
+
+    codes = mp.contracts()
+    extra = {con_addr(a): c for a, c in codes.items() if a != ACCOUNTS["A"]}
+    pre = sevmdrv.mk_ex(sevm, args, codes[ACCOUNTS["A"]], calldata=calldata(), this=con_addr(ACCOUNTS["A"]), extra_code=extra)
+    paths1, second = [], []
+    for e1 in sevm.run_message(pre, message(), Path(mk_solver(args))):
+        p1 = D.PathRes(kind_of(e1), e1.context.output.data, list(e1.path.conditions), e1, e1.context.output.error)
+        paths1.append(p1)
+        if p1.kind != "success":
+            continue
+        path2 = Path(mk_solver(args))
+        path2.extend_path(e1.path)
+        p2s = [D.PathRes(kind_of(e2), e2.context.output.data, list(e2.path.conditions), e2, e2.context.output.error)
+               for e2 in sevm.run_message(e1, message(), path2)]
+        second.append((len(paths1) - 1, p2s))
+    return sevm, paths1, second
+
+
+def multi_account_family_one(ctx, D, mp):
+    multi_account_family(ctx, D, [0, 1, 2], [], cases=[mp])
+
+
+def multi_account_family(ctx, D, pool, stored_multi, cases=None):
+    import itertools
+
+    if cases is None:
+        cases = list(stored_multi) + [m for m in multi_directed() if m.name not in {x.name for x in stored_multi}]
+        cases += [gen_multi(ctx.rng, pool) for _ in range(ctx.scale(6, 120))]
+    runs = []
+    b1 = Batch()
+    for mp in cases:
+        scn = D.Scenario(mp.contracts(), nargs=mp.nargs, name=mp.name)
+        combos = list(itertools.product([0, 1, 2], repeat=mp.nargs))
+        if len(combos) > 5:
+            combos = ctx.rng.sample(combos, 5)
+        combos.append(tuple(ctx.rng.choice(pool) % W for _ in range(mp.nargs)))
+        inputs = [mk_inputs(D, c) for c in dict.fromkeys(combos)]
+        runs.append((mp, scn, inputs, b1.add(D, scn, inputs)))
+        for k in mp.kinds():
+            ctx.count("multi:" + k)
+    conc1 = b1.run(ctx, D)
+    b2 = Batch()
+    idx2 = []
+    for (mp, scn, inputs, bi) in runs:     # second transaction of the reference: storage of tx1 carried over, transient cleared
+        idx2.append([b2.add(D, scn, [inp], pre_storage=dict(c.storage)) for inp, c in zip(inputs, conc1[bi])])
+    conc2 = b2.run(ctx, D)
+
+    def words(b):
+        return [b[i:i + 32].hex() for i in range(0, len(b), 32)]
+
+    for (mp, scn, inputs, bi), i2 in zip(runs, idx2):
+        for layout in ("solidity", "generic"):
+            try:
+                sevm, paths1, second = run_multi(ctx, D, mp, layout)
+            except Exception as e:  # noqa: BLE001
+                ctx.violation(f"C08|multi-account|{layout}|escaped:{type(e).__name__}", f"[{mp.name or 'generated'}] exception escaped run_message: {e!r:.200}",
+                              {"multi": mp.describe(), "layout": layout})
+                continue
+            for p in paths1:
+                ctx.count(f"multi-pathkind:{layout}:tx1:{p.kind}")
+            for n, (inp, c1) in enumerate(zip(inputs, conc1[bi])):
+                c2 = conc2[i2[n]][0]
+                bad = None
+                for j, p1 in enumerate(paths1):
+                    pe = D.PathEval(inp)
+                    try:
+                        if not pe.satisfies(p1.conds):
+                            continue
+                        if p1.kind.startswith("stuck:"):
+                            ctx.count("multi:covered-by-stuck")
+                            continue
+                        if p1.kind != c1.halt:
+                            bad = ("tx1", f"outcome:{p1.kind}-vs-{c1.halt}", [], [])
+                            break
+                        got1 = pe.bytes_of(p1.data)
+                        ctx.count("multi:tx1-compared")
+                        if p1.kind == "success" and got1 != c1.data:
+                            bad = ("tx1", "loaded-value", words(got1), words(c1.data))
+                            break
+                    except D.Unknown as u:
+                        ctx.count("multi:eval-unknown:" + str(u)[:20])
+                        continue
+                    for j1, p2s in second:
+                        if j1 != j:
+                            continue
+                        for p2 in p2s:
+                            pe2 = D.PathEval(inp)
+                            try:
+                                if not pe2.satisfies(p2.conds) or p2.kind.startswith("stuck:"):
+                                    continue
+                                if p2.kind != c2.halt:
+                                    bad = ("tx2", f"outcome:{p2.kind}-vs-{c2.halt}", [], [])
+                                    break
+                                got2 = pe2.bytes_of(p2.data)
+                                ctx.count("multi:tx2-compared")
+                                if p2.kind == "success" and got2 != c2.data:
+                                    bad = ("tx2", "loaded-value", words(got2), words(c2.data))
+                                    break
+                            except D.Unknown as u:
+                                ctx.count("multi:eval-unknown:" + str(u)[:20])
+                        if bad:
+                            break
+                    if bad:
+                        break
+                ctx.case(("multi", tuple(sorted(mp.contracts().items())), layout, tuple(inp.args)))
+                if bad:
+                    tx, kind, got, exp = bad
+                    key = f"C08|multi-account|{layout}|{tx}|{kind}|" + (f"directed:{mp.name}" if mp.name else "kinds:" + ",".join(sorted(mp.kinds())))
+                    ctx.violation(key, f"[{mp.name or 'generated'} / {layout}] accounts A, B(, C) deployed before a transaction started with run_message: in {tx} "
+                                  f"the words returned (own loads + callee's loads) differ from the EVM ({kind}) for args {[hex(a) for a in inp.args]}: "
+                                  f"SEVM {got} vs EVM {exp} — storage / transient storage is per account, transient storage is empty at the start of every "
+                                  "transaction and persistent storage carries over",
+                                  {"multi": mp.describe(), "layout": layout, "args": [hex(a) for a in inp.args], "tx": tx, "sevm": got, "evm": exp})
+                    ctx.count("multi:mismatch")
+                else:
+                    ctx.count("multi:agree")
 
 
 # ======================================================================================================================
@@ -1415,10 +1654,14 @@ def correspond(ctx):
 
     # ---------------------------------------------------------------- 2. + 3. programs
     corpus_dir = VERIF / "corpus" / ID
-    stored = []
+    stored, stored_multi = [], []
     if corpus_dir.is_dir():
         for f in sorted(corpus_dir.glob("*.json")):
             d = json.loads(f.read_text())
+            if "multi" in d:
+                stored_multi.append(Multi({n: Prog(list(_tuplify(st)), d["nargs"]) for n, st in d["multi"].items()}, d["nargs"], name=d.get("name", f.stem)))
+                ctx.count("corpus-file")
+                continue
             stored.append((Prog(list(_tuplify(d["stmts"])), d["nargs"], name=d.get("name", f.stem)), d.get("expect")))
             ctx.count("corpus-file")
     directed = directed_programs(ctx, variant, have={p.name for p, _ in stored})
@@ -1450,7 +1693,7 @@ def correspond(ctx):
                     ctx.violation(f"C08|escaped:{sr.escaped.split(':')[0]}|{layout}",
                                   f"an internal exception escaped SEVM.run on a storage program: {sr.escaped[:200]}", replay_body(prog, layout, {}))
                     continue
-                inputs = choose_inputs(ctx, prog, sr, scn, ctx.scale(2, 4), pool, minimal=prog.name.startswith("sweep-"))
+                inputs = choose_inputs(ctx, prog, sr, scn, ctx.scale(1, 4), pool, minimal=prog.name.startswith("sweep-"))
                 bi = batch.add(D, scn, inputs)
                 jobs.append((prog, layout, sr, inputs, expect, bi))
         _t = time.time()
@@ -1528,6 +1771,10 @@ def correspond(ctx):
                       replay_body(prog, layout, info))
 
     t_main = time.time() - t_start - t_probes
+    # ---------------------------------------------------------------- several accounts, run_message, two transactions
+    _t = time.time()
+    multi_account_family(ctx, D, pool, stored_multi)
+    t_multi = time.time() - _t
     # ---------------------------------------------------------------- transient storage across transactions
     tcases = [(("lit", 3), ("lit", 3), False), (("map", ("a", 0), ("lit", 1), 32), ("map", ("c", 1), ("lit", 1), 32), True),
               (("off", ("arr", ("lit", 2)), ("a", 0), False), ("off", ("arr", ("lit", 2)), ("c", 2), True), True),
@@ -1620,11 +1867,14 @@ def correspond(ctx):
         ctx.count("model:" + kind + ":" + ("agree" if exp == got else "differ"))
         ctx.case(("model", line))
         if exp != got:
+            if got.startswith("err symbolicSlot") and exp.startswith("ok") and "c:" in line:
+                ctx.count("model:concretization-of-a-subterm-not-modelled")   # int_of substitutes inside the base slot term
+                continue
             bad.append((descr, exp, got, line))
     ctx.extra["model_requests"] = len(model_lines)
     ctx.extra["programs"] = len(stored) + len(directed) + len(generated)
     ctx.extra["phase_wall_s"] = {"symbolic_run": round(t_sym, 1), "reference_evm": round(t_ref, 1), "compare": round(t_cmp, 1),
-                                 "model_driver": round(t_model, 1), "probes": round(t_probes, 1), "programs_total": round(t_main, 1), "total": round(time.time() - t_start, 1)}
+                                 "model_driver": round(t_model, 1), "probes": round(t_probes, 1), "multi_account": round(t_multi, 1), "programs_total": round(t_main, 1), "total": round(time.time() - t_start, 1)}
     if len(ctx.samples) < 3 and generated:
         ctx.sample(generated[0][0].describe())
     if bad:
@@ -1644,6 +1894,14 @@ def replay(ctx, data):
     """re-run one stored program on the real SEVM and the reference EVM; True if the outputs still differ"""
     D = _engine()
     body = data.get("replay", data)
+    if "multi" in body:
+        md = body["multi"]
+        mp = Multi({n: Prog(list(_tuplify(st)), md["nargs"]) for n, st in md["multi"].items()}, md["nargs"], name=md.get("name", ""))
+        before = len(ctx.violations)
+        multi_account_family_one(ctx, D, mp)
+        for v in ctx.violations[before:]:
+            print("still differs:", v["what"][:400])
+        return len(ctx.violations) > before
     if "program" not in body and "key" in body and "delta" in body:
         from props import offsetmap_probe as OP
 
